@@ -262,15 +262,18 @@ struct Run {
     MVal& plan; Stats& st; Result res; const FormatApi& api; std::string fmt, check; std::string B; MVal opts; Ctx cx;
     uint64_t exec_no = 0, only_exec = 0; uint64_t h = 1469598103934665603ULL;
     uint64_t produced_hint = 0;   // events the reader reports for this input (also before an error): the data actually produced
+    bool expect_error = false;    // the input is a strict prefix of a valid self-delimiting document: decoding must fail
     Run(MVal& p, Stats& s) : plan(p), st(s), api(api_of(p.gets("format"))), fmt(p.gets("format")), check(p.gets("check", "c03")) {}
 
     bool want() { ++exec_no; if (only_exec && exec_no != only_exec) return false; progress(exec_no); return true; }
     void fail(const std::string& cls, const std::string& detail, const std::string& mode, const Delivery& d) {
         if (!res.ok) return;
+        bool keep_expect = expect_error;
         // outcome equality across deliveries / modes is C03's oracle; the c05 profile only counts such observations
         if (check == "c05" && (cls.compare(0, 9, "delivery-") == 0 || cls.compare(0, 10, "crossmode-") == 0)) { st.inc("c03_class_observations." + cls.substr(0, cls.find('.'))); return; }
         res.fail(check + "." + cls + "." + fmt + "." + mode, detail + " [input " + std::to_string(B.size()) + " bytes: " + shorten(B, 120) + "] delivery " + d.label());
         narrow(plan, B, mode, d);
+        if (keep_expect) plan.set("expect", MVal::str("error")); else plan.erase("expect");
     }
     // one library execution with leak accounting; Outcome strings are harness-owned and excluded
     Outcome exec(const std::string& mode, const Delivery& d) {
@@ -286,6 +289,10 @@ struct Run {
         if (o.violation.empty() && o.meter_live > Meter::allowed(o.meter_at, d.chunk, o.produced)) {
             o.violation = "memory-exceeds-delivery";
             o.vdetail = "live bytes " + std::to_string(o.meter_live) + " after only " + std::to_string(o.meter_at) + " bytes delivered (chunk " + std::to_string(d.chunk) + ", " + std::to_string(o.produced) + " items produced in total): allowed 256KiB + 1024*(delivered+chunk) + 256*items";
+        }
+        if (expect_error && o.violation.empty() && o.error.empty() && !o.events.empty()) {
+            o.violation = "truncated-input-accepted";
+            o.vdetail = "a strict prefix of a valid document decodes without error: " + shorten(o.events, 200);
         }
         st.inc("executions"); st.inc("exec." + mode);
         st.inc("io_events", o.reads);
@@ -335,6 +342,7 @@ static Result exec_c03_c05(MVal& plan, Stats& st) {
     catch (const std::exception& e) { R.res.cls = "invalid-plan"; R.res.detail = e.what(); return R.res; }
     if (R.B.size() > (1u << 17)) { R.res.cls = "invalid-plan"; return R.res; }
     R.opts = plan.has("options") ? *plan.find("options") : MVal::obj();
+    R.expect_error = plan.gets("expect") == "error";
     R.cx.B = &R.B; R.cx.opts = &R.opts; R.cx.knob = plan.getu("knob"); R.cx.st = &st; R.cx.meter = true;
     if (bound_excluded(R.fmt, R.B)) { st.inc("inputs_outside_bom_bound"); R.res.cls = "excluded"; return R.res; }
     st.inc("plans"); st.inc("plans." + R.fmt); st.inc("faults.channel_fired", fired); st.inc("input_bytes", R.B.size());
@@ -372,7 +380,9 @@ static Result exec_c03_c05(MVal& plan, Stats& st) {
         }
         Outcome a = R.exec(m, contig);
         Outcome b = R.api.run(m, contig, R.cx);
-        if (a.key() != b.key()) { R.res.fail("harness:nondeterministic-reference", R.fmt + "/" + m + ": two contiguous runs differ"); return R.res; }
+        // the harness is deterministic (run.py determinism): two decodes of the same bytes that differ mean the decoder read
+        // memory it never wrote (e.g. a truncated scalar decoded from stale buffer contents)
+        if (a.key() != b.key()) { R.fail("nondeterministic-outcome", "decoding the same bytes twice gives different outcomes (uninitialised data used): " + shorten(a.events, 150) + " / " + a.error + " vs " + shorten(b.events, 150) + " / " + b.error, m, contig); return R.res; }
         R.c05_flags(a, m, contig);
         if (a.peak > Meter::allowed(L, 1, a.produced) && R.res.ok) R.fail("memory-exceeds-input", "peak " + std::to_string(a.peak) + " bytes for " + std::to_string(L) + " input bytes and " + std::to_string(a.produced) + " items produced (contiguous)", m, contig);
 
@@ -518,6 +528,32 @@ static Result exec_c03_c05(MVal& plan, Stats& st) {
                 uint64_t own = 0; for (const std::string* s : {&o.events, &o.error, &o.violation, &o.vdetail}) if (s->capacity() > 15) ++own;
                 if (R.res.ok && ledger::live_blocks() != blocks0 + own) R.fail("leak", "blocks still allocated after encoding into a failing sink", "sink", dd);
                 st.nontrivial(mix3(fnv1a(R.fmt + "sink"), cap * 4 + (uint64_t)kind, fnv1a(text)));
+            }
+        }
+    }
+    // ---- C05: every strict prefix of a VALID binary document must be refused (self-delimiting formats): a truncated
+    //      input that decodes "successfully" was completed from bytes that never arrived
+    if (c05 && !R.api.text && plan.has("doc") && ref.count("reader") && ref["reader"].error.empty()) {
+        std::string valid = R.api.encode(plan_text(plan, "doc"), plan.getu("variant"));
+        Ctx cv = R.cx; cv.B = &valid;
+        Outcome whole = R.api.run("reader", contig, cv);
+        if (whole.error.empty() && valid.size() > 1) {
+            size_t VL = valid.size(), step = VL > 96 ? (VL + 95) / 96 : 1;
+            for (size_t t = 1; t < VL; t += step) {
+                std::string prefix = valid.substr(0, t);
+                std::string saveB = R.B; R.B = prefix; R.cx.B = &R.B; R.expect_error = true;
+                for (int del = 0; del < 2 && R.res.ok; ++del) {
+                    Delivery d; if (del == 1) { d.kind = "stream"; d.chunk = 3; d.getarea = 2; }
+                    for (const char* m : {"reader", "cursor"}) {
+                        if (!R.want()) continue;
+                        Outcome o = R.exec(m, d);
+                        R.c05_flags(o, m, d);
+                        st.inc("faults.truncation_of_valid_document");
+                        st.nontrivial(mix3(fnv1a(R.fmt + m + "trunc"), t * 2 + (uint64_t)del, fnv1a(valid)));
+                        if (!R.res.ok) return R.res;
+                    }
+                }
+                R.B = saveB; R.cx.B = &R.B; R.expect_error = false;
             }
         }
     }
